@@ -84,6 +84,11 @@ def elf64_seed():
     return bytes(out)
 
 
+def amiga_seed():
+    """a hunk file per the AmigaDOS loader format with a data hunk in front of the code hunk (header table: two hunks of one long word)"""
+    return b"".join(struct.pack(">I", w) for w in (0x3f3, 0, 2, 0, 1, 1, 1, 0x3ea, 1, 0xdeadbeef, 0x3f2, 0x3e9, 1, 0x4e754e75, 0x3f2))
+
+
 TI_TXT = "@f000\n31 40 00 04 1F 53 B0 12 0C F0 FC 3F 30 41\n@fffe\n00 F0\nq\n"
 EXT = {"hex": "f.hex", "srec": "f.srec", "elf": "f.elf", "wdc": "f.wdc", "uf2": "f.uf2", "amiga": "f.amiga", "macho": "f.macho", "bin": "f.bin"}
 TEXT_FORMATS = ("hex", "srec", "txt")
@@ -110,6 +115,7 @@ def make_seeds():
             seeds["%s.%s" % (pname, t)] = (EXT[t], blob)
     seeds["hand.txt"] = ("f.txt", TI_TXT.encode())
     seeds["hand64.elf"] = ("f.elf", elf64_seed())
+    seeds["hand2.amiga"] = ("f.amiga", amiga_seed())
     seeds["empty.bin"] = ("f.bin", b"")
     seeds["empty.hex"] = ("f.hex", b"")
     seeds["empty.elf"] = ("f.elf", b"")
@@ -127,6 +133,8 @@ def file_variants(sname, data, quick):
         for i in range(limit, n, 97):
             yield "trunc@%d" % i, data[:i]
     is_text = sname.rsplit(".", 1)[1] in TEXT_FORMATS
+    if sname == "hand2.amiga":
+        quick = False                                                   # 60 bytes: the full menus cost nothing, and the format is big-endian
     span = min(n, 900)
     step = 2 if quick else 1
     for i in range(0, span, step):
